@@ -11,8 +11,8 @@ import shutil
 import subprocess
 import sys
 
-VERIF = "/verif"
-TMP = "/tmp/seed_regress"
+VERIF = os.path.dirname(os.path.dirname(os.path.abspath(__file__)))
+TMP = "/tmp/seed_regress_" + str(os.getpid())
 
 
 def sh(cmd, **kw):
